@@ -62,7 +62,7 @@ def gen_cases(chk):
     # the back-end hypothesis of the theorem, sampled: wrap(s) <= s + s/3277 + 40 on incompressible strings
     for be, levels in ((0, (-1, 0, 1, 9)), (1, (1, 3, 19))):
         for level in levels:
-            for n in (0, 1, 50, 99, 100, 101, 4000, 65535, 65536, 200000) + ((3000000,) if thorough else ()):
+            for n in (0, 1, 50, 99, 100, 101, 4000, 65535, 65536, 200000) + ((3000000,) if thorough else ()) + ((9000000,) if (be == 1 and level == 3) or thorough else ()):
                 lz.append("lz %x %s r:%x:%x" % (be, ("-%x" % -level) if level < 0 else "%x" % level, rng.getrandbits(20), n))
     return rt, lz
 
@@ -115,7 +115,8 @@ def run(chk):
             continue
         n, cs = int(d["n"], 16), int(d["csize"], 16)
         if cs > n + n // 3277 + 40:
-            chk.broken.append("back-end hypothesis of C07_size_bound sampled false: wrap(%d) = %d on `%s`" % (n, cs, c))
+            chk.violation("the lossless wrapper reports %d bytes for %d input bytes (more than input + input/3277 + 40: the worst-case framing the size bound rests on)%s on `%s`"
+                          % (cs, n, "; the wrapped bytes do not unwrap to the input" if d.get("rt") == "0" else "", c), {"case": c, "impl": r[:300], "variant": "asan"})
     chk.cov["traces_validated_against_impl"] = len(rt) + len(lz)
     chk.cov["rule"] = ("incompressible arrays (uniform noise, bounds down to 1e-30, ranges 1e-30..1e30) of all ten element types, ranks 1..4, five bound modes incl. "
                        "PW_REL, ten configurations (both back ends, all levels, fixed/auto intervals, both kernel families, best-speed): size <= raw + 128 + 0.1%; "
@@ -137,7 +138,10 @@ def replay(chk, path):
     out = lib.run_cases(exe, [r["case"]])[0]
     d = kv(out)
     a = r["case"].split(" ")
-    bad = out.startswith("DIED") or d.get("st") != "ok"
+    bad = out.startswith("DIED") or (a[0] == "rt" and d.get("st") != "ok")
+    if not bad and a[0] == "lz":
+        n, cs = int(d["n"], 16), int(d["csize"], 16)
+        bad = cs > n + n // 3277 + 40
     if not bad and a[0] == "rt":
         n, o = int(d["n"], 16), int(d["out"], 16)
         raw = n * ES[int(a[1], 16)]
